@@ -10,6 +10,7 @@ any configured limit.  Constants come from `Uquic.Gen.Protocol` (regenerated fro
 import Uquic.Proofs.StreamsIncomingRun
 import Uquic.Proofs.StreamsOutgoingRun
 import Uquic.Proofs.StreamsMap
+import Uquic.Generated.Streams
 
 namespace Uquic.Props.C15
 open Uquic.Model.Streams Uquic.Proofs.Streams
@@ -303,5 +304,11 @@ example :
       (fun m o => (m.step o).1) m0
     (m1.quiesce 100).2.1 = [(1, .err .rejected0RTT), (2, .err .rejected0RTT), (3, .err .rejected0RTT)] ∧
     ((m1.quiesce 100).1.outBidi.nextStream, (m1.quiesce 100).1.outBidi.procs) = (m0.outBidi.nextStream, []) := by decide
+
+/-! ## shape of the Go code the atomic-step modelling relies on -/
+
+/-- Every sub-map method that the model treats as one atomic step takes the map's mutex in its
+    first statement (regenerated from /repo by gofacts; a method that stops doing so breaks this). -/
+theorem atomic_steps_lock_at_entry : Uquic.Gen.Streams.allLockAtEntry = true := by decide
 
 end Uquic.Props.C15
